@@ -6,16 +6,61 @@ VERIF = os.path.dirname(os.path.dirname(os.path.abspath(__file__)))
 BASELINE = "cd /repo && /venv/bin/python -m pytest -ra -q -p no:cacheprovider --timeout=900 --continue-on-collection-errors test"
 
 # id -> (technique, level text, level note, design ref)
+NOTE = ('Trusted: Lean 4.33 kernel; axioms propext/Quot.sound/Classical.choice only (checked by #print axioms on every run); the correspondence '
+        'harness and translator in harness/; Python primitives named in DESIGN.md section 6. ')
+T = 'Lean 4 theorems over an executable model + differential correspondence with the real code (+ translator-regenerated tables)'
 CLAIMED = {
-    'C08': ('Lean 4 theorems over a hand-written model of capabilities.py (grammar spec <-> _abbreviate, dict semantics); '
-            'model tied to the code by differential correspondence on generated URI lists',
-            'Machine-checked proof (Lean 4 kernel) that, in the model of capabilities.py, lookup of an advertised URI succeeds, '
-            'shorthand lookup succeeds iff the grammar of RFC capability/base URNs says so (both URN forms), results are the right '
-            'capability, parameters are exactly the well-formed k=v pairs and the only failure is KeyError - for all URI lists and keys. '
-            'The model is compared with the real Capabilities class on thousands of grammar-generated cases per run, and the property '
-            'predicate (an independent regex spec) is evaluated on the implementation itself.',
-            'Trusted: Lean kernel; axioms propext/Quot.sound/Classical.choice; the correspondence harness; Python str.split/startswith as modelled.',
-            'DESIGN.md 5/C08'),
+    'C01': (T + ': segmentation law / round trip by induction over read lists',
+            'Machine-checked proof that, in the model of DefaultXMLParser, delivered messages depend only on the concatenated byte stream '
+            '(all cuts, all chunkings, both framing versions, all byte streams), equal the RFC 4742/6242 reading of the stream, nothing is '
+            'delivered early and nothing after a terminator is lost. The model is compared with the real parser on generated and '
+            'exhaustive-cut streams each run, and the property predicate is evaluated on the real parser with an independent RFC decoder.',
+            NOTE + 'The three _transport_read bodies are checked textually to be recv(BUF_SIZE); the theorems hold for every cut so the read size is immaterial.',
+            'DESIGN.md 5/C01'),
+    'C02': (T + ': invariants over all operation histories of the session model; short-write induction',
+            'Proof that in the session model the wire is always a prefix of the concatenation of the frames of the dequeued messages in put '
+            'order, complete between frames, for every interleaving and short-write pattern; a write returning <= 0 is an error; and that '
+            'decoding the frames with the verified inbound decoder returns the messages. Real Session.run is driven in lock-step '
+            '(every transport call answered by the harness) and compared step by step with the model.',
+            NOTE + 'queue.Queue FIFO is a trusted primitive.', 'DESIGN.md 5/C02'),
+    'C03': (T + ': invariants over all interleavings at synchronisation-point granularity',
+            'Proof over all histories of the session model that a request holds only a reply carrying its own message-id, at most once, that '
+            'late replies and non-reply messages disturb nothing (for every profile). Real Session/RPC/RPCReplyListener objects are driven in '
+            'lock-step and compared with the model after every step; real-socket runs with client threads check reply/thread pairing.',
+            NOTE + 'uuid4 freshness; interleavings below transport-call granularity are covered by the theorems, not by the correspondence.', 'DESIGN.md 5/C03'),
+    'C04': (T + ': invariants + fault enumeration at every byte offset',
+            'Proof that every loss (EOF, read error, failed write) leads to the error path, that every registered request is failed with that '
+            'error, the session ends disconnected and refuses later requests, and nothing pending is ever forgotten. Lock-step fault injection '
+            'and real-socket runs closing the connection at every byte offset check the real code, incl. call durations.',
+            NOTE + 'Event.wait(timeout) is a trusted primitive; wall-clock bounds are measured with tolerances.', 'DESIGN.md 5/C04'),
+    'C05': (T + ': interleaving invariants + finite profile table regenerated from the source',
+            'Proof that the first frame is the client hello in end-of-message framing for every ordering of server hello vs. client write, '
+            'that later frames are chunked iff both sides advertised base:1.1, that id/capabilities come from a received hello, that connect '
+            'cannot hang; decide-checked table: all 14 profiles always advertise a base URI, default = documented list ++ extras.',
+            NOTE + 'HelloHandler.build/parse (lxml) enter as environment; the hello on the wire is parsed with xml.etree in the oracle.', 'DESIGN.md 5/C05'),
+    'C08': (T + ': grammar spec <-> _abbreviate, dict semantics',
+            'Machine-checked proof that, in the model of capabilities.py, lookup of an advertised URI succeeds, shorthand lookup succeeds iff the '
+            'grammar of RFC capability/base URNs says so (both URN forms), results are the right capability, parameters are exactly the '
+            'well-formed k=v pairs and the only failure is KeyError - for all URI lists and keys. The model is compared with the real '
+            'Capabilities class on thousands of grammar-generated cases per run; an independent regex spec is evaluated on the implementation.',
+            NOTE + 'Python str.split/startswith as modelled.', 'DESIGN.md 5/C08'),
+    'C11': (T + ': queue invariant over all histories',
+            'Proof that taken ++ queued notifications are exactly the well-formed notifications received, in order, that a notification changes '
+            'no request and never fails the session for any profile, and that an empty take returns nothing. Lock-step histories for all 14 '
+            'profiles and real-socket runs (blocking / non-blocking takes timed) check the real code.',
+            NOTE + 'queue.Queue.get(block, timeout) is a trusted primitive.', 'DESIGN.md 5/C11'),
+    'C12': (T + ': release invariant + bounded worker termination under a stated environment',
+            'Proof that after close() the worker stops within todo+5 steps whatever it was doing, the session ends disconnected, refuses '
+            'requests, invokes no listener, and in-flight requests are failed. PARTIAL: what epoll/paramiko do with a closed descriptor is an '
+            'explicit environment assumption, validated by lock-step runs of the three real close() methods and by real Unix/TLS sockets '
+            '(thread liveness, EOF at the peer, fd/thread counts over open/close cycles).',
+            NOTE + 'OS/epoll/paramiko behaviour is modelled (workerOpClosed), not verified; no SSH server in the quick tier.', 'DESIGN.md 5/C12'),
+    'C14': (T + ': soundness of delivery for arbitrary byte streams, no-stall, stop invariant',
+            'Proof that for ANY byte stream and segmentation the delivered messages are the payloads of correctly framed messages forming a '
+            'prefix of the stream, followed by at most one error; that a non-raised parser is never wedged; that bad headers raise at once; '
+            'and that whenever the worker stops the session is closing, the final error was delivered and every request failed or answered. '
+            'Mutation-grammar and bounded-exhaustive streams, and hostile lock-step histories, run on the real code each time.',
+            NOTE + 'parse_root (lxml) enters as the environment parameter `classify`.', 'DESIGN.md 5/C14'),
 }
 ALL = ['C%02d' % i for i in range(1, 19)]
 
